@@ -270,6 +270,11 @@ func (e *Engine) addPC(c *Term) {
 
 func (e *Engine) countDec() {
 	if len(e.taken) > e.MaxDecs {
+		if e.budget > 0 {
+			// inside a termination budget (vBudget) a run-away number of branch
+			// decisions is the same finding as a run-away number of instructions
+			panic(budgetExceeded{})
+		}
 		panic(pathTruncated{fmt.Sprintf("more than %d decisions on one path (unwinding bound)", e.MaxDecs)})
 	}
 }
